@@ -9,4 +9,5 @@ let () =
   | _ :: ("c01" | "c02") :: rest -> C01.run rest
   | _ :: ("c06" | "c07") :: rest -> C06.run rest
   | _ :: "c17" :: rest -> C17.run rest
+  | _ :: "c03" :: rest -> C03.run rest
   | _ -> prerr_endline "usage: model <property> ..."; exit 2
